@@ -24,6 +24,7 @@ ENGINE = {
  "C03": "bind runs, invocations, invalidations, reads and callbacks in both build profiles, plus the oracle: no node of a superseded bind run is ever invoked again, such nodes and their observed dependants are invalid",
  "C04": "result class (ok / which panic) of every op in debug and release builds over four history streams including handle drops in any order; oracle: no panic at all on well-formed histories",
  "C05": "per-stabilise invocations and stats, plus the oracle: every computed node lies in the dependency cone of an observer live for that call (cone at start or at end)",
+ "C06": "per-stabilise ordered invocation and cutoff-call logs under random cutoff assignment (default, Never, Always, fn, boxed) to every kind of node including vars, plus the oracle on the crate's timestamps (re-invoked only if an input was stamped since the last run; a stamped input re-invokes every needed dependant in the same stabilise; function cutoffs see (old, new); Always freezes, Never always stamps)",
  "C07": "every read result between actions and from inside closures, plus the oracle: reads do not move between stabilises, new observers are NeverStabilised, values are the snapshot values",
  "C08": "returns of get/replace/replace_with, the values every reader function saw, effect logs of closures and handlers, is_stable, plus a python write-machine oracle (immediate outside stabilise, deferred and composed inside node functions, applied at the end, immediate in handlers)",
  "C09": "per-subscription callback sequences, plus the oracle: Initialised once, Changed exactly on a changed value, nothing after unsubscribe/disallow/drop",
